@@ -334,6 +334,40 @@ def run(chk, replay=None):
             # a valid token refused: not a violation of C16 (fail closed) but worth a note
             chk.notes.setdefault("valid_token_refused", []).append("%s %s %s" % (meta["method"], rq["uri"], meta["carrier"]))
 
+    # ---- 2b. the same middleware on a node WITHOUT a raft leader (what every node sees during a leader switch):
+    #      the session store cannot be queried; a token that cannot be verified is no token
+    lreqs = []
+    for pattern, m, hdl, p in routes:
+        if not under_prefix(pattern) or p in FIXED_ALLOWED or hdl == LOGIN_HANDLER:
+            continue
+        for c in ("accesstoken-header", "authorization-bearer", "query", "body"):
+            if c == "body" and m == "GET":
+                continue
+            h, q, b, _ = carrier_request(c, "nope-unknown-token")
+            uri = p + (("&" if "?" in p else "?") + q if q else "")
+            rq = {"method": m, "uri": uri, "headers": h}
+            if b is not None:
+                rq["body"] = b
+            lreqs.append((rq, {"route": pattern, "method": m, "carrier": c}))
+    if tier == "quick":
+        lreqs = lreqs[:: max(1, len(lreqs) // 160)]
+    lcase = {"k": "http", "sessions": [], "env": {"RNACOS_RAFT_AUTO_INIT": "false", "RNACOS_RAFT_JOIN_ADDR": ""},
+             "reqs": [r for r, _ in lreqs]}
+    lres0 = lib.harness_run("auth", [lcase], timeout=600)[0]
+    if lres0.get("r") != "ok" or not lres0.get("enable_auth"):
+        chk.violation("auth/http harness case (leaderless node) failed: %s" % json.dumps(lres0)[:300],
+                      {"suite": "auth", "broken": "harness", "result": lres0}, False)
+    else:
+        for (rq, meta), o in zip(lreqs, lres0["out"]):
+            n_eval += 1
+            nontrivial.add(("http-leaderless", meta["route"], meta["method"], meta["carrier"]))
+            if o.get("forwarded") and obs_dispatch(o) == 0:
+                chk.classify("served-without-token:leaderless:%s:%s" % (meta["method"], meta["route"]),
+                             "%s %s was served with an unverifiable token (carrier %s) on a node without raft leader: status %s"
+                             % (meta["method"], rq["uri"], meta["carrier"], o.get("status")),
+                             {"suite": "auth", "case": dict(lcase, reqs=[rq]), "observed": o, "meta": meta})
+        chk.notes["leaderless_requests"] = len(lreqs)
+
     # ---- 3. a genuine login: the issued token works, a wrong password issues none -------------------------
     life = {"k": "http", "sessions": [], "reqs": [
         {"method": "POST", "uri": "/nacos/v1/auth/login", "headers": [["Content-Type", "application/x-www-form-urlencoded"]],
